@@ -87,6 +87,17 @@ def cases(tier, seed):
                                 for d in itertools.product(*dv):
                                     out.append({"shape": list(shape), "M": M, "model": model, "cls": cls,
                                                 "mask": mask, "cutoff": cutoff, "tilt": tilt, "d": list(d)})
+    if tier == "quick":
+        # the fractional range 1.95 on every axis of an odd box (in the thorough tier through the shape list): the integer
+        # search has to reach ceil(1.95) for the refinement window to contain a peak at the edge of the range
+        shape = (11, 11, 11)
+        M = [MTAB[1][n] for n in shape]
+        for model in MODELS:
+            if model == "FSC":
+                continue
+            for cls, tilt in (("smooth", "none"), ("broadband", "y60:I")):
+                for d in itertools.product(*[_dvals(m, tier) for m in M]):
+                    out.append({"shape": list(shape), "M": M, "model": model, "cls": cls, "mask": "none", "cutoff": None, "tilt": tilt, "d": list(d)})
     # a search range wider than half the box (small binned boxes with a generous range): the displacement itself stays
     # moderate, so that the periodic image of the copy lies outside the range and the answer is unique
     wide = (-3.0, 0.25, 2.0) if tier == "quick" else (-3.0, -2.0, 0.25, 2.0, 3.0)
